@@ -110,6 +110,10 @@ def kind_twin(v, rng, depth=0):
 _kserial = itertools.count()
 
 
+def c05_contains_dc(ty):
+    return ty.k in ('dc', 'struct', 'tagged') or any(c05_contains_dc(c) for c in ty.a)
+
+
 def check_constructor(ctx, sub, i, T, v, tydesc):
     """A field annotated T is one more door into T: K(v), K(f=v) and x.__replace__(f=v) convert v exactly as pane.convert(v, T) does
     (same verdict, same stored value) - whatever the exact type of v is."""
@@ -145,6 +149,29 @@ def check_constructor(ctx, sub, i, T, v, tydesc):
     return True
 
 
+def alias_nodes(v, rng, depth=0):
+    """A copy of v in which two entries of one mapping hold the VERY SAME list / dict object (what a YAML anchor and alias load as, or a
+    caller reusing one list): each field still has to judge it by its own type. None when v has no such place."""
+    if isinstance(v, dict) and len(v) >= 2:
+        donors = [k for k, x in v.items() if isinstance(x, (list, dict))]
+        if donors and rng.random() < 0.8:
+            k1 = rng.choice(donors)
+            k2 = rng.choice([k for k in v if k != k1])
+            out = dict(v)
+            out[k2] = out[k1]
+            return out
+    if depth < 3:
+        items = list(v.items()) if isinstance(v, dict) else (list(enumerate(v)) if isinstance(v, list) else [])
+        rng.shuffle(items)
+        for k, x in items:
+            sub = alias_nodes(x, rng, depth + 1)
+            if sub is not None:
+                out = dict(v) if isinstance(v, dict) else list(v)
+                out[k] = sub
+                return out
+    return None
+
+
 def gen_case(ctx, rng):
     depth = rng.choice((1, 2, 2, 3)) if ctx.tier == 'quick' else rng.choice((1, 2, 3, 3, 4, 5, 6))
     ty = gentypes.gen_type(rng, depth)
@@ -176,6 +203,11 @@ def run(ctx):
                     entrypoints.check_parse_agreement(ctx, 'model-vs-pane', 'main', i, T, v, out, describe(ty), is_dc=ty.k == 'dc')
                 if out is not None and out.kind != 'escape' and rng.random() < 0.15:
                     check_constructor(ctx, 'main', i, T, v, describe(ty))
+                if c05_contains_dc(ty) and rng.random() < 0.5:
+                    av = alias_nodes(v, rng)
+                    if av is not None:
+                        ctx.count('aliased_node_cases')
+                        check_case(ctx, 'main', i, ty, T, av, 'aliased-nodes')
                 if out is not None and out.kind == 'value' and rng.random() < 0.5:
                     # straight after an accepted value, through the SAME type object (and so the same converter): its twin of another
                     # kind (1 -> 1.0 -> True ...), which compares and hashes equal to it - a per-converter memo keyed by the raw value
